@@ -445,6 +445,19 @@ example : (mkStmt [⟨0, .comment⟩, ⟨3, .func⟩, ⟨8, .lparen⟩, ⟨9, .o
     ⟨11, .other⟩, ⟨12, .lparen⟩, ⟨13, .rparen⟩, ⟨14, .lbrace⟩, ⟨15, .rbrace⟩,
     ⟨16, .semicolon⟩]).isFuncDecl = true := by decide
 
+/-- After fix 84c0657: `func ( ) int { } ( ) ;` (literal with a result type) and
+`func /*c*/ ( ) { } ( ) ;` are statements; `func ( r ) + ( x ) T { } ;` and
+`func ( T ) . name = ( … ) ;` are declarations; an unclosed `func (` is not. -/
+example : (mkStmt [⟨0, .func⟩, ⟨4, .lparen⟩, ⟨5, .rparen⟩, ⟨7, .other⟩, ⟨11, .lbrace⟩, ⟨12, .rbrace⟩,
+    ⟨13, .lparen⟩, ⟨14, .rparen⟩, ⟨15, .semicolon⟩]).isDecl = false := by decide
+example : (mkStmt [⟨0, .func⟩, ⟨5, .comment⟩, ⟨11, .lparen⟩, ⟨12, .rparen⟩, ⟨14, .lbrace⟩, ⟨15, .rbrace⟩,
+    ⟨16, .lparen⟩, ⟨17, .rparen⟩, ⟨18, .semicolon⟩]).isDecl = false := by decide
+example : (mkStmt [⟨0, .func⟩, ⟨5, .lparen⟩, ⟨6, .other⟩, ⟨7, .rparen⟩, ⟨9, .other⟩, ⟨11, .lparen⟩,
+    ⟨12, .other⟩, ⟨13, .rparen⟩, ⟨15, .other⟩, ⟨17, .lbrace⟩, ⟨18, .rbrace⟩, ⟨19, .semicolon⟩]).isFuncDecl = true := by decide
+example : (mkStmt [⟨0, .func⟩, ⟨5, .lparen⟩, ⟨6, .other⟩, ⟨7, .rparen⟩, ⟨8, .period⟩, ⟨9, .other⟩,
+    ⟨11, .other⟩, ⟨13, .lparen⟩, ⟨14, .other⟩, ⟨15, .rparen⟩, ⟨16, .semicolon⟩]).isFuncDecl = true := by decide
+example : (mkStmt [⟨0, .func⟩, ⟨5, .lparen⟩, ⟨6, .other⟩, ⟨7, .semicolon⟩]).isDecl = false := by decide
+
 example : ∀ s ∈ splitStmts [⟨0, .var⟩, ⟨4, .other⟩, ⟨5, .semicolon⟩, ⟨6, .func⟩, ⟨11, .other⟩,
     ⟨12, .lparen⟩, ⟨13, .rparen⟩, ⟨14, .lbrace⟩, ⟨15, .rbrace⟩, ⟨16, .semicolon⟩],
     s.isDecl = true := by decide
